@@ -71,7 +71,7 @@ package proxy
 //@   at-store receivedRequest: assert value && !called(np) && !called(wr)
 //@   at-call newInitialPing as np: assert arg0 == h.proxy && arg1 == pc.Protocol && !old(h.receivedRequest)
 //@   at-call Active as act
-//@   at-call Marshal as js
+//@   at-call json.Marshal as js
 //@   at-call writeStatusResponse as wr: assert arg0 == h && !old(h.receivedRequest) && !called(cl)
 //@   at-call writeStatusResponse#1 as w1
 //@   at-call writeStatusResponse#2 as w2: assert called(js) && res(js, 1) == nil && streq(cast(arg2, *packet.StatusResponse).Status, bytes(res(js, 0)))
@@ -634,7 +634,7 @@ package proxy
 //@   at-call Undashed as id: assert arg0 == s.player.profile.ID
 //@   at-call WriteString#5 as p3: assert [then-the-undashed-uuid] called(s2) && streq(arg1, res(id))
 //@   at-call WriteString#6 as s3: assert called(p3) && streq(arg1, "\x00")
-//@   at-call Marshal as js
+//@   at-call json.Marshal as js
 //@   at-call WriteString#7 as p4: assert [then-the-json-property-list] called(s3) && called(js) && res(js, 1) == nil && streq(arg1, bytes(res(js, 0)))
 //@   at-call String#2 as out: assert called(p4)
 //@   ensures [all-four-parts] called(p1) && called(p2) && called(p3) && called(p4) && called(out) && streq(result, res(out))
@@ -651,7 +651,7 @@ package proxy
 //@   at-call WriteString#5 as p3: assert called(s2) && streq(arg1, res(id))
 //@   at-call WriteString#6 as s3: assert called(p3) && streq(arg1, "\x00")
 //@   at-call append#2 as tok: assert [token-property-appended] len(arg1) == 1 && streq(arg1[0].Name, "bungeeguard-token") && streq(arg1[0].Value, secret)
-//@   at-call Marshal as js: assert called(tok)
+//@   at-call json.Marshal as js: assert called(tok)
 //@   at-call WriteString#7 as p4: assert called(s3) && called(js) && res(js, 1) == nil && streq(arg1, bytes(res(js, 0)))
 //@   ensures [all-four-parts-with-the-token] called(p1) && called(p2) && called(p3) && called(tok) && called(p4)
 
